@@ -36,7 +36,7 @@ Proof. split; vm_compute; reflexivity. Qed.
 Theorem c01_no_panic : forall zones negttl answer verify cfg buf req,
   wf_cfg cfg -> length buf = c_buflen cfg -> catalog_ok cfg zones -> wf_bytes req ->
   exists x, handle_message_w zones negttl answer verify cfg buf req = Ok x.
-Proof. intros zones negttl answer verify cfg buf req H1 H2 H3 H4. exact (handle_message_w_total zones negttl answer verify cfg buf H1 H2 H3 req H4). Qed.
+Proof. intros zones negttl answer verify cfg buf req H1 H2 H3 H4. exact (handle_message_w_total zones negttl answer verify cfg buf H1 H2 (fun _ _ => True) H3 req H4). Qed.
 
 (* the composed dispatch is Server.handle_query's: whenever the composed model answers abstractly,
    the answer is the one of the request-side model *)
@@ -62,7 +62,7 @@ Proof.
   exists z, req_simple, [[97]]%N, false, ex_recs. split; [reflexivity|].
   split; [exact req_simple_trans|]. split; [exact Ez|]. split; [reflexivity|].
   split; [split; [split; [repeat constructor; cbv; lia|simpl; lia]|simpl; lia]|].
-  repeat constructor; try (cbv; lia); try (apply wf_bytesb_spec; reflexivity).
+  split; [|exact I]. repeat constructor; try (cbv; lia); try (apply wf_bytesb_spec; reflexivity).
 Qed.
 
 Example c01_example_answer :
